@@ -5,6 +5,7 @@ go 1.24.9
 require (
 	github.com/google/uuid v1.6.0
 	github.com/parquet-go/parquet-go v0.0.0
+	github.com/twpayne/go-geom v1.6.1
 )
 
 require (
@@ -13,7 +14,6 @@ require (
 	github.com/parquet-go/bitpack v1.0.3 // indirect
 	github.com/parquet-go/jsonlite v1.5.5 // indirect
 	github.com/pierrec/lz4/v4 v4.1.21 // indirect
-	github.com/twpayne/go-geom v1.6.1 // indirect
 	golang.org/x/sys v0.38.0 // indirect
 	google.golang.org/protobuf v1.34.2 // indirect
 )
